@@ -73,6 +73,20 @@ def _run(case, frames, stream, layout, total, cuts, kinds, expected_all, gaps, s
     res = CaseResult()
     fed = 0
     classes = set()
+    if case.get("neighbour_closes"):
+        # another plaintext connection of this process receives, in ONE chunk, a frame that makes its owner close it
+        # followed by further complete frames: those are its own (lost with it), they never surface on this connection
+        classes.add("neighbour_closed_mid_chunk")
+        h2, conn2, _tr2 = fstub.make_plain(sim)
+        orig = conn2.process_packet
+
+        def pp(t, d, _orig=orig, _h2=h2):
+            _orig(t, d)
+            if t == 5:
+                _h2.close()
+
+        conn2.process_packet = pp
+        h2.data_received(wire.enc_plain(26, b"\x0d\x09\x00\x00\x00") + wire.enc_plain(5, b"") + wire.enc_plain(25, b"\x0d\x02\x00\x00\x00") + wire.enc_plain(200, b"\x01" * 40))
     bounds = {e for (_s, _h, e) in layout} | {0}
     inside = False
     for i, chunk in enumerate(wire.iter_cut(stream, cuts)):
@@ -192,6 +206,8 @@ def _case(draw, tier):
         case["flow"] = {str(i): draw(st.lists(st.sampled_from(["pause", "resume"]), min_size=1, max_size=2)) for i in range(len(case["cuts"]) + 1) if draw(st.integers(0, 2)) == 0}
         if draw(st.booleans()):
             case["gaps"] = draw(st.lists(st.sampled_from([0, 0, 0.01, 1]), min_size=1, max_size=3))
+    elif r == 7:
+        case["neighbour_closes"] = True
     elif r == 5:
         case["gaps"] = draw(st.lists(st.sampled_from([0, 0.01, 1, 5, 9.5, 29, 31, 45, 100, 1000]), min_size=1, max_size=4))
     return case
@@ -244,6 +260,8 @@ def enumerated(tier):
         yield {"frames": fr, "repeat": 12, "cuts": mids, "kinds": [0, 1], "gaps": g}
     yield {"frames": [[35, {"h": "", "pad": [1, 3000]}]], "cuts": list(range(100, 3000, 100)), "kinds": [0], "gaps": [2]}
     four = [[26, {"h": "0d01000000"}], [7, {"h": ""}], [300, {"h": "0102"}], [25, {"h": "0d02000000"}]]
+    for cuts in ([], [8], [3, 14]):
+        yield {"frames": four, "cuts": cuts, "kinds": [0, 1], "neighbour_closes": True}
     for cuts in ([8], [8, 11], [3, 8, 14], [8, 9, 10, 11]):
         for flow in ({"0": ["pause"], "1": ["resume"]}, {"0": ["pause"], "2": ["resume"]}, {"1": ["pause", "resume"]}, {"0": ["pause"]}, {"0": ["pause"], "1": ["resume", "pause"], "2": ["resume"]}):
             yield {"frames": four, "cuts": cuts, "kinds": [0, 1], "flow": flow}
